@@ -508,8 +508,9 @@ class SpectralDensity(DFunction, UnitsManaged):
             #self.cutoff_time = max(self.cutoff_time, other.cutoff_time)
             
 
-            for p in other.params:
-                self.params.append(p)            
+            # (a copy of the list: the other function may be this one)
+            for p in list(other.params):
+                self.params.append(p)
             
             self._is_composed = True
             self._is_empty = False
@@ -566,7 +567,8 @@ class SpectralDensity(DFunction, UnitsManaged):
         by numerical transformation from spectral density.
         """
 
-        return bool(self.params["ftype"] in self.analytical_types)
+        # (params is the list of the components' dictionaries)
+        return all(p["ftype"] in self.analytical_types for p in self.params)
 
 
     def get_temperature(self):
